@@ -259,6 +259,15 @@ TRAIT_WITNESSES = [
      "let p: BumpPool<IsSend> = BumpPool::new_in(IsSend);\nneed_send(p);"),
     ("a BumpBox into a !Send payload is not Send", "let b: Bump = Bump::new();\nlet x = b.alloc(core::marker::PhantomData::<*const ()>);\nneed_send(x);",
      "let b: Bump = Bump::new();\nlet x = b.alloc(1u32);\nneed_send(x);"),
+    ("an owned Bump inside WithoutDealloc is not a scope: its collections cannot hand out slices",
+     "let mut v = BumpVec::new_in(bump_scope::WithoutDealloc(Bump::<Global>::new()));\nv.push(1u32);\nlet s = v.into_slice();\ntouch(&s);",
+     "let bump: Bump = Bump::new();\nlet mut v = BumpVec::new_in(bump_scope::WithoutDealloc(&bump));\nv.push(1u32);\nlet s = v.into_slice();\ntouch(&s);"),
+    ("an owned Bump inside WithoutShrink is not a scope: its collections cannot hand out slices",
+     "let mut v = BumpVec::new_in(bump_scope::WithoutShrink(Bump::<Global>::new()));\nv.push(1u32);\nlet s = v.into_slice();\ntouch(&s);",
+     "let bump: Bump = Bump::new();\nlet mut v = BumpVec::new_in(bump_scope::WithoutShrink(&bump));\nv.push(1u32);\nlet s = v.into_slice();\ntouch(&s);"),
+    ("an owned Bump is not a scope: BumpVec<T, Bump> cannot hand out slices",
+     "let mut v = BumpVec::new_in(Bump::<Global>::new());\nv.push(1u32);\nlet s = v.into_slice();\ntouch(&s);",
+     "let bump: Bump = Bump::new();\nlet mut v = BumpVec::new_in(&bump);\nv.push(1u32);\nlet s = v.into_slice();\ntouch(&s);"),
     ("pool guard is not Send across threads when the allocator is !Send", "let p: BumpPool<NotSend> = BumpPool::new_in(NotSend::default());\nlet g = p.get();\nneed_send(g);",
      "let p: BumpPool<IsSend> = BumpPool::new_in(IsSend);\nlet g = p.get();\ntouch(&g);"),
 ]
